@@ -76,6 +76,7 @@ pub struct Ctl {
     pub seq: u64,
     /// waits at least this long are hang verdicts (see `wait_for`)
     pub hang_bound: Duration,
+    gates: Vec<Arc<AtomicBool>>,
     /// how often a hang verdict was postponed because the processes under test were busy
     pub hang_extensions: u64,
 }
@@ -216,6 +217,7 @@ impl Ctl {
             clock,
             hang_bound: Duration::from_millis(std::env::var("VERIF_HANG_MS").ok().and_then(|s| s.parse().ok()).unwrap_or(10_000)),
             hang_extensions: 0,
+            gates: vec![],
         })
     }
 
@@ -226,7 +228,13 @@ impl Ctl {
     }
 
     /// Start a process in its own process group; its exit (with captured output) arrives as Ev::Exit.
-    pub fn spawn(&mut self, name: &str, mut cmd: Command, want_stdin: bool) -> std::io::Result<usize> {
+    pub fn spawn(&mut self, name: &str, cmd: Command, want_stdin: bool) -> std::io::Result<usize> {
+        self.spawn_gated(name, cmd, want_stdin, None)
+    }
+
+    /// As `spawn`; with a gate, the process's stdout is a 4 KiB pipe that nobody reads until the gate is
+    /// set (a consumer that is slow or stuck: `monorail run ... | less`).
+    pub fn spawn_gated(&mut self, name: &str, mut cmd: Command, want_stdin: bool, gate: Option<Arc<AtomicBool>>) -> std::io::Result<usize> {
         cmd.stdout(Stdio::piped()).stderr(Stdio::piped());
         if want_stdin {
             cmd.stdin(Stdio::piped());
@@ -240,6 +248,13 @@ impl Ctl {
         let stdin = child.stdin.take();
         let mut so = child.stdout.take().unwrap();
         let mut se = child.stderr.take().unwrap();
+        if let Some(g) = &gate {
+            self.gates.push(g.clone());
+            use std::os::unix::io::AsRawFd;
+            unsafe {
+                libc::fcntl(so.as_raw_fd(), libc::F_SETPIPE_SZ, 4096);
+            }
+        }
         let slot = Arc::new(Mutex::new(Some(child)));
         self.procs.push(ProcInfo {
             name: name.to_string(),
@@ -256,6 +271,11 @@ impl Ctl {
                 let _ = se.read_to_end(&mut b);
                 b
             });
+            if let Some(g) = &gate {
+                while !g.load(Ordering::SeqCst) {
+                    std::thread::sleep(Duration::from_millis(2));
+                }
+            }
             let mut out = Vec::new();
             let _ = so.read_to_end(&mut out);
             let err = h.join().unwrap_or_default();
@@ -433,6 +453,9 @@ impl Ctl {
 
 impl Drop for Ctl {
     fn drop(&mut self) {
+        for g in &self.gates {
+            g.store(true, Ordering::SeqCst);
+        }
         // no straggler may survive the world; the unreaped leaders keep their pids reserved until here
         for p in &self.procs {
             unsafe {
